@@ -195,11 +195,11 @@ def run(tier, replay=None):
                 s["c"] = [x * f for x in s["c"]]
             for u in ec:
                 u["c"] = [x * f for x in u["c"]]
-            for mode in (0, 1):
+            for mode in (0, 1, 3):
                 sysc.append({"id": "y%d_%d" % (k, mode), "extra": {"order": 0, "noscreen": mode}, "shells": sh_, "ecps": ec, "_sa": sa_, "_ea": ea_})
         # dissimilar shells: a compact low-l shell far from a soft ECP whose own atom carries a diffuse high-l shell, the compact
         # shell listed LAST (only the first shell of a pair is screened); the distance scans the window in which the screen decides
-        nst = len(sysc) // 2
+        nst = len(sysc) // 3
         for fam in range(3 if tier == "quick" else 12):
             lhi = maxl; ehi = rng.loguniform(0.006, 0.012); elo = rng.uniform(1.0, 3.0); llo = rng.randint(0, 1)
             dirn = gen.rand_dir(rng)
@@ -212,11 +212,11 @@ def run(tier, replay=None):
                 P = [x * d_ for x in dirn]
                 sh_ = [{"l": 0, "c": [0.0, 0.0, 0.0], "e": [0.5], "d": [1.0]}, {"l": lhi, "c": [0.0, 0.0, 0.0], "e": [ehi], "d": [1.0]},
                        {"l": llo, "c": P, "e": [elo], "d": [1.0]}]
-                for mode in (0, 1):
+                for mode in (0, 1, 3):
                     sysc.append({"id": "y%d_%d" % (nst, mode), "extra": {"order": 0, "noscreen": mode}, "shells": sh_, "ecps": [u], "_sa": [0, 0, 1], "_ea": [0]})
                 nst += 1
                 # the same system with the basis handed over in two calls (the diffuse shells first, the compact one afterwards)
-                for mode in (0, 1):
+                for mode in (0, 1, 3):
                     sysc.append({"id": "y%d_%d" % (nst, mode), "extra": {"order": 0, "noscreen": mode, "split_basis": 2}, "shells": sh_, "ecps": [u], "_sa": [0, 0, 1], "_ea": [0]})
                 nst += 1
         # moved systems: the integrator is initialised at a stretched geometry (every shell/ECP pair beyond the screening radius, or
@@ -226,7 +226,7 @@ def run(tier, replay=None):
         for k in range(6 if tier == "quick" else 40):
             sh_, ec, sa_, ea_ = api_k.rand_system(rng, maxl, natoms=rng.randint(2, 3), nshells=rng.randint(2, 4), necps=rng.randint(1, 2))
             stretch = rng.choice([25.0, 60.0, 0.5, 12.0])
-            for mode in (0, 1):
+            for mode in (0, 1, 3):
                 sysc.append({"id": "y%d_%d" % (nst, mode), "extra": {"order": 0, "noscreen": mode, "init_stretch": stretch}, "shells": sh_, "ecps": ec, "_sa": sa_, "_ea": ea_})
             nst += 1; nmoved += 1
         res.cov["systems_initialised_elsewhere_and_moved"] = nmoved
@@ -242,17 +242,21 @@ def run(tier, replay=None):
             elif t and t[0] == "mat" and t[1] == "integrals":
                 mats[cur] = [float.fromhex(x) for x in t[4:]]
         napi = 0
-        for k in range(len(sysc) // 2):
-            a = mats["y%d_0" % k]; b = mats["y%d_1" % k]
-            c = sysc[2 * k]
+        for k in range(len(sysc) // 3):
+            a = mats["y%d_0" % k]; b = mats["y%d_1" % k]; bp = mats["y%d_3" % k]
+            c = sysc[3 * k]
             sc = max(sum(abs(x) for x in s["d"]) for s in c["shells"]) ** 2 * max(sum(abs(p["d"]) for p in u["p"]) for u in c["ecps"])
             dv = max(abs(x - y) for x, y in zip(a, b))
             if any(x != y for x, y in zip(a, b)):
                 napi += 1
             if dv > 1e-9 * sc * len(c["ecps"]):
-                # is it the API site?  re-run with only that site bypassed would be needed; report with the trace
-                viol.append((c, "integrator matrix: screens discard %.3e > %.3e" % (dv, 1e-9 * sc * len(c["ecps"]))))
-        res.cov["evaluations"] = len(cases) + len(sysc) // 2
+                # the same system with the primitive estimate screen alone bypassed: if that restores the unscreened matrix, it is the recorded finding
+                dvp = max(abs(x - y) for x, y in zip(bp, b))
+                if dvp <= 1e-9 * sc * len(c["ecps"]) and "F-C12-screen" in active:
+                    known.append((c["id"], dv, 1e-9 * sc * len(c["ecps"])))
+                else:
+                    viol.append((c, "integrator matrix: screens discard %.3e > %.3e (not removed by bypassing the primitive estimate screen alone: %.3e left)" % (dv, 1e-9 * sc * len(c["ecps"]), dvp)))
+        res.cov["evaluations"] = len(cases) + len(sysc) // 3
         res.cov["distinct_nontrivial"] = nscreened + napi
         res.cov["cases_where_a_screen_fired"] = nscreened; res.cov["systems_where_the_api_screen_changed_something"] = napi
         res.cov["worst_ratio_to_tolerance"] = worst
